@@ -323,7 +323,87 @@ def r5_meshgrid(repo: Repo, rep):
         rep.check(R, order_ok, fi.site(p.ret_node), fi.fq, "space = param space * point space (same order as the concatenation)", dump(sp), dump(sp))
 
 
+class _Layer:
+    def __init__(self, kind, a, b):
+        self.kind, self.a, self.b, self.gain = kind, a, b, None
+
+    def key(self):
+        from ..absdom.listeval import norm
+        return ("lin", norm(self.a), norm(self.b), norm(self.gain) if self.gain is not None else None)
+
+
+def _build_layers(fi, n_hidden: int, list_args: bool):
+    """partial evaluation of a layer builder for `n_hidden` hidden layers: the returned layer list as comparable keys"""
+    from ..absdom.listeval import Evaluator, NotEval, Opaque, UNKNOWN, norm
+    from ..absdom.poly import RF
+    hidden = [RF.atom(f"h{k}") for k in range(n_hidden)]
+    acts = [f"act{k}" for k in range(n_hidden)] if list_args else "act"
+    gains = [RF.atom(f"g{k}") for k in range(n_hidden)] if list_args else RF.atom("g")
+
+    def resolve(e, ev, f):
+        if isinstance(e, ast.Attribute) and e.attr == "weight":
+            try:
+                base = ev.ev(e.value, f)
+            except NotEval:
+                return None
+            if isinstance(base, _Layer):
+                return base
+        return None
+
+    def on_call(e, name, args, kws, ev, f):
+        if name.split(".")[-1] in ("Linear", "TrunkLinear") and args and len(args) >= 2:
+            return _Layer("lin", args[0], args[1])
+        if name.endswith("xavier_normal_") and args and isinstance(args[0], _Layer):
+            args[0].gain = kws.get("gain", args[1] if len(args) > 1 else 1)
+            return args[0]
+        if name == "isinstance" and args is None:
+            return None
+        return None
+    env = {"hidden": hidden, "input_dim": RF.atom("din"), "output_dim": RF.atom("dout"), "activations": acts, "xavier_gains": gains}
+    names = [a.arg for a in fi.node.args.args]
+    env = {n: env[k] for n, k in zip(names, ("hidden", "input_dim", "output_dim", "activations", "xavier_gains"))}
+    fr = Evaluator(resolve, on_call).run(fi.node.body, env)
+    if not isinstance(fr.ret, list):
+        return None
+    out = []
+    for x in fr.ret:
+        out.append(x.key() if isinstance(x, _Layer) else ("act", repr(x)))
+    return out
+
+
+def r6_builder_siblings(repo: Repo, rep):
+    R = rep.rule("R-C09-6", "the fast-path layer builder construct_FC_trunk_layers builds the architecture of _construct_FC_layers (same widths, activation and Xavier gain per "
+                 "position), with TrunkLinear in place of nn.Linear; FCTrunkNet.forward feeds the whole trunk input through the layer stack", floor=7,
+                 why="another activation / width / gain per layer, or evaluating only one copy and expanding it, is another network (values or input gradients differ from the plain net)")
+    fast = repo.module("models.deeponet.trunknets").functions.get("construct_FC_trunk_layers")
+    plain = repo.module("models.fcn").functions.get("_construct_FC_layers")
+    if fast is None or plain is None:
+        raise AnalysisError("layer builders vanished")
+    rep.saw(fast), rep.saw(plain)
+    for n in (1, 2, 3):
+        for lists in (True, False):
+            a, b = _build_layers(fast, n, lists), _build_layers(plain, n, lists)
+            what = f"{n} hidden layer(s), {'per-layer lists' if lists else 'one activation / gain for all layers'}"
+            if a is None or b is None:
+                rep.undecided(R, fast.site(), fast.fq, f"both builders evaluable for {what}", f"fast {a is not None}, plain {b is not None}")
+                continue
+            diff = [f"position {i}: fast {x} vs plain {y}" for i, (x, y) in enumerate(zip(a, b)) if x != y]
+            if len(a) != len(b):
+                diff.append(f"{len(a)} vs {len(b)} layers")
+            rep.check(R, not diff, fast.site(), fast.fq, f"same layer list as the plain builder for {what}", "; ".join(diff[:2]), "; ".join(diff[:2]))
+    ci = repo.cls(f"{DO}.trunknets.FCTrunkNet")
+    fw = ci.methods.get("forward")
+    rep.saw(fw)
+    pname = fw.params[1]
+    for p in paths(fw.node):
+        if p.ret is RAISE or p.ret is None:
+            continue
+        want = f"self._reshape_multidimensional_output(self.sequential(self._fix_points_order({pname}).as_tensor))"
+        rep.check(R, dump(p.ret) == want, fw.site(p.ret_node), fw.fq, "output = reshape(sequential(<all ordered trunk inputs>))", dump(p.ret)[:140], dump(p.ret)[:140])
+
+
 def run(repo: Repo, rep):
+    r6_builder_siblings(repo, rep)
     r1_contraction(repo, rep)
     r2_reshape_agreement(repo, rep)
     r3_fast_path(repo, rep)
@@ -337,6 +417,7 @@ _BR = "src/torchphysics/models/deeponet/branchnets.py"
 _LA = "src/torchphysics/models/deeponet/layers.py"
 _FS = "src/torchphysics/problem/domains/functionsets/functionset.py"
 MUTANTS = [
+    dict(id="C09-M20", file=_TR, old="        layers.append(TrunkLinear(hidden[i], hidden[i + 1]))\n        torch.nn.init.xavier_normal_(layers[-1].weight, gain=xavier_gains[i + 1])", new="        layers.append(TrunkLinear(hidden[i], hidden[i + 1]))\n        torch.nn.init.xavier_normal_(layers[-1].weight, gain=xavier_gains[i])", rule="R-C09-6", what="fast-path gain index off by one"),
     dict(id="C09-M1", file=_DN, old="trunk_out * self.branch.current_out.unsqueeze(1), dim=-1", new="trunk_out * self.branch.current_out.unsqueeze(1), dim=-2", rule="R-C09-1", what="sum over the component axis"),
     dict(id="C09-M2", file=_DN, old="self.branch.current_out.unsqueeze(1), dim=-1", new="self.branch.current_out.unsqueeze(0), dim=-1", rule="R-C09-1", what="branch broadcast over the function axis"),
     dict(id="C09-M3", file=_BR, old="            -1, self.output_space.dim, int(self.output_neurons / self.output_space.dim)\n        )", new="            -1, int(self.output_neurons / self.output_space.dim), self.output_space.dim\n        )", rule="R-C09-2", what="branch reshape tail swapped"),
